@@ -349,7 +349,9 @@ pub fn memory_requirement_ext_up_to(lhs_len: usize, rhs_len: usize) -> Layout {
         memory::array_layout::<Word>(t_words),
         memory::max_layout(
             div::memory_requirement_exact(lhs_len, rhs_len), //
-            mul::memory_requirement_up_to(lhs_len, lhs_len / 2), // for coeff update
+            // for coeff update: the factors share lhs_len + 1 words, so the shorter one
+            // has up to lhs_len / 2 + 1 words when lhs_len is odd
+            mul::memory_requirement_up_to(lhs_len + 1, lhs_len / 2 + 1),
         ),
     )
 }
